@@ -22,7 +22,10 @@ RULE = ("P: all ordered duplicate-free constructor lists over a pool of 3 observ
         "publish(plain|log_trace) up to the depth bound; after every publish the per-event global call order, "
         "exactly-once delivery and the failure reports (identified by the Failure's exception object) are compared "
         "with a list reference.  F: all histories of setLogLevelForNamespace(prefix, level)/clearLogLevels up to the "
-        "bound x constructor default x 9 event namespaces x 5 event levels, observed through FilteringLogObserver "
+        "bound x constructor default x 9 event namespaces x 5 event levels, each history run twice: queried once at "
+        "the end, and queried before the first and after every configuration change on the same predicate (lookups "
+        "and events interleaved with set/clear on ancestors, descendants and the default; the reference is always "
+        "evaluated on the current configuration), observed through FilteringLogObserver "
         "(forwarded vs negative observer), the predicate result and logLevelForNamespace against a most-specific-"
         "dotted-prefix reference.  H: sizes {None,0,1,2,3} x all event/replay histories.  non-trivial = a publish in "
         "which an observer raised or the registration list had changed before; a filter decision taken from a "
@@ -37,8 +40,8 @@ ASSUMPTIONS = [
     "nested failure reports (an observer failing while receiving a failure report) are not judged",
     "events without a level or a namespace are not judged by the filter part",
 ]
-MIN = {"quick": {"evaluations": 550000, "nontrivial": 490000, "outcomes": 9},
-       "thorough": {"evaluations": 2500000, "nontrivial": 2300000, "outcomes": 9}}
+MIN = {"quick": {"evaluations": 2300000, "nontrivial": 940000, "outcomes": 10},
+       "thorough": {"evaluations": 9400000, "nontrivial": 4000000, "outcomes": 10}}
 
 CALL_CAP = 100
 BEH = ["ok", "raise-ev", "raise-all", "oneshot"]
@@ -231,25 +234,10 @@ def ref_level(cfg, ns):
     return cfg[best if best is not None else ""], best
 
 
-def f_eval(st, default, ops, witness_only=False):
-    from twisted.logger import LogLevel, LogLevelFilterPredicate, FilteringLogObserver, PredicateResult
-    const = {n: LogLevel.lookupByName(n) for n in LEVELS}
-    pred = LogLevelFilterPredicate() if default is None else LogLevelFilterPredicate(defaultLogLevel=const[default])
-    dflt = default or "info"
-    cfg = {"": dflt}
-    touched = False
-    for op in ops:
-        if op[0] == "set":
-            pred.setLogLevelForNamespace(op[1], const[op[2]])
-            if op[1] in cfg:
-                touched = True
-            cfg[op[1]] = op[2]
-        else:
-            pred.clearLogLevels()
-            cfg = {"": dflt}
-            touched = True
-    yes, no = [], []
-    flt = FilteringLogObserver(yes.append, [pred], no.append)
+def f_sweep(st, pred, flt, yes, no, const, cfg, touched, key):
+    """Query every namespace (logLevelForNamespace, predicate, FilteringLogObserver) against the reference
+    evaluated on the CURRENT configuration `cfg`."""
+    from twisted.logger import PredicateResult
     bad = []
     for ns in NAMESPACES:
         want_level, via = ref_level(cfg, ns)
@@ -276,7 +264,7 @@ def f_eval(st, default, ops, witness_only=False):
                                 cfg, ns, lv, want_level, via, passed, getattr(res, "name", res))))
             st.outcome("F:pass" if want else "F:drop")
             if (via is not None and via != ns) or touched:
-                st.nt(("F", default, ops, ns, lv))
+                st.nt(("F", key, ns, lv))
             if via is None:
                 st.outcome("F:default-level")
             elif via == ns:
@@ -284,6 +272,47 @@ def f_eval(st, default, ops, witness_only=False):
             else:
                 st.outcome("F:proper-prefix")
     return bad
+
+
+def f_eval(st, default, ops, interleave=False):
+    """Apply the configuration history to one real predicate.  interleave=False: query everything once at the
+    end.  interleave=True: query everything before the first change and again after every change (lookups and
+    events interleaved with set/clear on ancestors, descendants and the default).  Returns (violations, steps)."""
+    from twisted.logger import LogLevel, LogLevelFilterPredicate, FilteringLogObserver
+    const = {n: LogLevel.lookupByName(n) for n in LEVELS}
+    pred = LogLevelFilterPredicate() if default is None else LogLevelFilterPredicate(defaultLogLevel=const[default])
+    dflt = default or "info"
+    cfg = {"": dflt}
+    touched = False
+    yes, no = [], []
+    flt = FilteringLogObserver(yes.append, [pred], no.append)
+    if interleave:
+        bad = f_sweep(st, pred, flt, yes, no, const, cfg, False, (default, (), True))
+        if bad:
+            return bad, 0
+    for k, op in enumerate(ops):
+        if op[0] == "set":
+            pred.setLogLevelForNamespace(op[1], const[op[2]])
+            if op[1] in cfg:
+                touched = True
+            cfg[op[1]] = op[2]
+        else:
+            pred.clearLogLevels()
+            cfg = {"": dflt}
+            touched = True
+        if interleave:
+            st.outcome("F:queried-again-after-" + op[0])
+            bad = f_sweep(st, pred, flt, yes, no, const, cfg, True, (default, ops[:k + 1], True))
+            if bad:
+                # does a fresh predicate given the same configuration answer correctly?  then the defect is state
+                # carried over from the earlier lookups
+                fresh, _ = f_eval(Stats(), default, ops[:k + 1], False)
+                if not fresh:
+                    bad = [(sig + ":stale-after-earlier-lookup", d) for sig, d in bad]
+                return bad, k + 1
+    if interleave:
+        return [], len(ops)
+    return f_sweep(st, pred, flt, yes, no, const, cfg, touched, (default, ops, False)), len(ops)
 
 
 def f_configs(tier, first):
@@ -307,8 +336,11 @@ def run_f(st, default, firsts, tier):
     for first in firsts:
         first = tuple(first) if first is not None else None
         for ops in f_configs(tier, first):
-            for sig, detail in f_eval(st, default, ops):
-                st.violation(sig, detail, {"part": "F", "default": default, "ops": [list(o) for o in ops]})
+            for inter in ((False, True) if ops else (False,)):
+                bad, steps = f_eval(st, default, ops, inter)
+                for sig, detail in bad:
+                    st.violation(sig, detail, {"part": "F", "default": default, "interleave": inter,
+                                               "ops": [list(o) for o in ops[:steps]]})
     st.sample({"part": "F", "default": default, "ops": [list(o) for o in ops]})
 
 
@@ -367,8 +399,8 @@ def shards(tier, seed):
     out = [["P", i] for i in range(len(INITS))]
     all_first = [None] + [["set", p, l] for p in PREFIXES for l in LEVELS] + [["clear"]]
     for default in (None, "debug", "error"):
-        for k in range(4):
-            out.append(["F", default, all_first[k::4]])
+        for k in range(9):
+            out.append(["F", default, all_first[k::9]])
     out.append(["H"])
     return out
 
@@ -393,5 +425,5 @@ def replay(w):
             out = p_step(world, tuple(op))
         return out
     if w["part"] == "F":
-        return f_eval(st, w["default"], tuple(tuple(o) for o in w["ops"]))
+        return f_eval(st, w["default"], tuple(tuple(o) for o in w["ops"]), bool(w.get("interleave")))[0]
     return h_eval(st, w["size"], tuple(w["ops"]))
